@@ -552,6 +552,11 @@ func editsFor(s loginpeer.Script, plain bool) []edit {
 					})
 					mod("cipher:0", func(f *rc.Fmt, r *rc.Row) { r.Cells[0].I = 0 })
 					mod("cipher:2", func(f *rc.Fmt, r *rc.Row) { r.Cells[0].I = 2 })
+					// (suites that share bits or bytes with the one the client supports)
+					for _, v := range []int64{3, 5, 257, 65537, 16777217, -1, -2147483647, 2147483647} {
+						v := v
+						mod(fmt.Sprintf("cipher:%d", v), func(f *rc.Fmt, r *rc.Row) { r.Cells[0].I = v })
+					}
 					mod("key:truncated", func(f *rc.Fmt, r *rc.Row) { r.Cells[1].B = r.Cells[1].B[:len(r.Cells[1].B)/2] })
 					mod("key:garbled", func(f *rc.Fmt, r *rc.Row) {
 						b := append([]byte{}, r.Cells[1].B...)
